@@ -92,7 +92,7 @@ def tone_bounds(t, c):
 
 
 def run(ctx):
-    broken = common.proof_stage(ctx, ["SoxrModel.Properties.C01"], "C01", exes=(), gens=())
+    broken = common.proof_stage(ctx, ["SoxrModel.Properties.C01", "SoxrModel.Properties.C01Engine"], ["C01", "C01Engine"], exes=("soxrmodel",), gens=())
     S.harness()
     S.set_active("C01")
     rng = ctx.rng
@@ -139,6 +139,14 @@ def run(ctx):
                     "class_db": r["class_db"]})
     ctx.count("row_configurations_measured", measured)
     ctx.count("row_inequality_evaluations", n_eval)
+    # ---------------- the two models of the same plan agree on its period.  Properties/C01Engine (tone_step_one_run,
+    # tone_error_first_period) proves for the ENGINE MODEL - FIFOs, block schedules, any call sequence, kernels arbitrary functions of
+    # (stage, phase tags, window) - that one period of d_out output frames beyond the horizon decides the error of a tone over a stream
+    # of any length; d_out is `planShift` of the exported plan, evaluated by the compiled driver.  Because a dft stage's kernel is
+    # arbitrary there, d_out contains the period of its BLOCK schedule; that the block transform is a shift-invariant convolution
+    # (overlap-save) is what reduces d_out to the L_P rows measured here (Signal.implPeriod of the stage rates) and is covered by
+    # measurement (C12's bit-exact shift runs, the rows themselves).  Demanded here: L_P divides d_out, at the same rate.
+    period_tie(ctx, [r for r in results if "LP" in r])
 
     # ---------------- sine-fit exploration, end to end
     n_fit = 60 if quick else 2000
@@ -272,6 +280,41 @@ def run(ctx):
     if broken and not ctx.violations:
         ctx.violation("Lean obligations of C01 no longer check: " + "; ".join(broken)[:1500],
                       {"broken": broken, "falsifier": "measurement found no failing tone on this run"}, no_input=True)
+
+
+def period_tie(ctx, rows):
+    from checks import crcommon as cr, c12_engine
+    exe = common.build_harness("crtrace", ["cr/trace.c"], "rel")
+
+    def work(r):
+        c = r["cfg"]
+        cfg = {"ir": repr(float(c["ir"])), "or": repr(float(c["orr"])), "recipe": c["recipe"], "qflags": c["qflags"]}
+        for k in ("prec", "phase", "pb", "sb", "rtflags", "kb", "min", "large"):
+            if c.get(k) is not None:
+                cfg[k] = c[k]
+        env = {} if c.get("simd") is None else {"SOXR_USE_SIMD": str(c["simd"])}
+        tr = cr.run_trace(exe, [cr.create_line(cfg)], env, timeout=120)
+        if not tr.created or not tr.plan:
+            return r, cfg, env, "no-plan", None
+        per, err = c12_engine.period_of(tr)
+        return r, cfg, env, per, err
+    for r, cfg, env, per, err in cr.pmap(work, rows):
+        ctx.count("period_ties_checked")
+        if per == "no-plan":
+            ctx.count("period_tie_no_plan"); continue
+        if per == "error":
+            ctx.violation("the model driver did not answer cr.period for a measured configuration: %s (%s)" % (err, r["label"]), {"cfg": cfg, "env": env}, no_input=True)
+            continue
+        if per is None:
+            ctx.count("period_tie_engine_period_beyond_search_bound"); continue
+        d, dout, hor = per
+        q = dout // r["LP"] if r["LP"] and dout % r["LP"] == 0 else -1
+        ctx.hist("engine_period_over_measured_period", "not nested" if q < 0 else "1" if q == 1 else "<=100" if q <= 100 else "<=10^4" if q <= 10 ** 4 else ">10^4")
+        if dout % r["LP"] or d * r["LP"] != r["MP"] * dout:
+            ctx.violation("the period C01 measures (L_P = %d output rows per M_P = %d input frames, Signal.implPeriod of the plan's stage rates) and the "
+                          "period of the engine model (planShift of the exported plan: %d output frames per %d input frames, horizon %d) do not nest at "
+                          "the same rate: the two models of the same plan disagree (%s)"
+                          % (r["LP"], r["MP"], dout, d, hor, r["label"]), {"cfg": cfg, "env": env, "measured": [r["LP"], r["MP"]], "engine": list(per)}, no_input=True)
 
 
 def job_fit(args):
